@@ -26,7 +26,7 @@ def gen_case(seed, i, engine, heavy_failures, real=None):
     # the take-over: either the harness's transcription of leader.go, or (real) the REAL
     # leader.NewLeaderElection(...).Campaign() of a restarted node, optionally with the engine-timestamp read
     # after its lock write failing
-    lines.append("restart" if real is None else "campaign id=n1" + (" f=tso" if real == "tso" else ""))
+    lines.append("restart" if real is None else "campaign id=n1" + {"plain": "", "tso": " f=tso", "fresh": " fresh=1 f=tsoslow", "slow": " f=tsoslow"}[real])
     lines.append("list %s %s 0 0" % (hx(PREFIX + b"/"), hx(PREFIX + b"0")))
     for k in keys:
         lines.append("get %s 0" % hx(k))
@@ -39,7 +39,25 @@ def gen_case(seed, i, engine, heavy_failures, real=None):
                      compare=lambda op: False)   # wall-clock / TSO revisions: judged by the oracle only
 
 
+def sync_order_case(i):
+    """a follower applies two leader-revision answers out of order (R2, then R1 < R2), is then elected and installs
+    its election timestamp T: the next revision it hands out is T+1 (compared with the model line by line)"""
+    eng = ENGINES[i % 3]
+    k = [hx(PREFIX + b"/s%d" % j) for j in range(4)]
+    lines = [hist.cfg_line(eng), "create %s 7631" % k[0], "create %s 7632" % k[1], "rev",
+             "lowrev 900", "setrev %d" % (2000 + i), "setrev %d" % (1500 + i), "setrev %d" % (3000 + i),
+             "create %s 7633" % k[2], "rev", "update %s 7634 1001" % k[0], "rev", "get %s 0" % k[0],
+             "list %s %s 0 0" % (hx(PREFIX + b"/"), hx(PREFIX + b"0"))]
+    return core.Case("backend", lines, {"engine": eng, "syncorder": True})
+
+
 def oracle(case):
+    if case.meta.get("syncorder"):
+        for i, (line, out) in enumerate(zip(case.lines, case.impl)):
+            t, o = line.split(), out.split()
+            if t[0] == "create" and i > 6 and len(o) >= 3 and o[1] == "ok" and int(o[2]) <= 3000:
+                return ("after installing its election timestamp the node handed out revision %s, not above it: %s" % (o[2], out), "revision-regress")
+        return None
     phase = 0
     before_list = None
     max_rev_seen = 0
@@ -83,7 +101,8 @@ def oracle(case):
 
 def check(rep, tier, seed):
     n = 18 if tier == "quick" else 300
-    cases = [gen_case(seed, i, ENGINES[i % 3], heavy_failures=(i % 2 == 0), real=[None, "plain", "tso"][(i // 3) % 3]) for i in range(n)]
+    cases = [gen_case(seed, i, ENGINES[i % 3], heavy_failures=(i % 2 == 0), real=[None, "plain", "tso", "fresh", "slow"][(i // 3) % 5]) for i in range(n)]
+    cases += [sync_order_case(i) for i in range(3)]
     core.run_cases(cases)
     for c in cases:
         rep.count_case(c)
@@ -91,6 +110,10 @@ def check(rep, tier, seed):
         if hit:
             if core.handle_oracle_hit(rep, "C15", hit[1], c, hit[0], hit[1]):
                 return
+            continue
+        if c.meta.get("syncorder") and c.diff() is not None:
+            core.handle_diff(rep, "C15", "correspondence-sync-order", c)
+            return
     rep.assumptions += ["memkv (wall-clock ns) and tikv (PD TSO): the engine clock advanced by more than the number of revisions issued — checked on every run, not proved",
                         "the new leader is initialised (a) by the harness's transcription of leader.go: lock Get/Create/Update, Describe(), SetCurrentRevision(timestamp); "
                         "(b) in two thirds of the cases by the real leader.NewLeaderElection(...).Campaign() (client-go elector) of a node restarted under the "
